@@ -166,6 +166,20 @@ def thdm_class(case, m0=None):
             return "mS=MZ"
         if close(p[s_], 2 * mw):
             return "mS=2MW"
+    # neighbourhoods (1 %) of the same removable singularities: the closed forms have already lost digits there,
+    # whatever coincidence the path itself goes through
+    near = lambda a, b: abs(a - b) <= 1e-2 * max(a, b)
+    if near(mhp, mw):
+        return "near:mH+=MW"
+    for s_ in ("mh", "mH", "mA"):
+        if near(p[s_], mz):
+            return "near:mS=MZ"
+        if near(p[s_], 2 * mw):
+            return "near:mS=2MW"
+        if near(p[s_], mhp + mw) or near(p[s_], abs(mhp - mw)):
+            return "near:kallen-bosonic(S,H+,W)"
+    if max(p["mh"], p["mH"], p["mA"], mhp) >= 2000.0:
+        return "heavy-scalars(>=2TeV):" + case["target"]["kind"]
     return "other:" + case["target"]["kind"]
 
 
@@ -295,9 +309,15 @@ def prop_mssm(case):
 
 def known_match(entry, case, fail):
     m = entry.get("match", {})
-    if fail.detail.get("coincidence") in ([m["coincidence"]] if "coincidence" in m else m.get("coincidences", [])):
+    co = fail.detail.get("coincidence", "")
+    if co in ([m["coincidence"]] if "coincidence" in m else m.get("coincidences", [])) or \
+            any(co.startswith(pre) for pre in m.get("coincidence_prefixes", [])):
         comps = set(m.get("components", []))
-        return all(q.get("component") in comps for q in fail.detail.get("problems", []))
+        probs = fail.detail.get("problems", [])
+        if "max_deviation" in m and any(q.get("deviation/|a|", 0) > m["max_deviation"] or q.get("what") != "discontinuous"
+                                         for q in probs):
+            return False
+        return all(q.get("component") in comps for q in probs)
     return False
 
 
